@@ -1316,6 +1316,9 @@ class DiameterMessage:
             for key in self.__dict__.keys():
                 if avp_key in key:
                     index += 1
+            #: A name already in use (e.g. after a pop) is never taken again.
+            while f"{avp_key}__{index}" in self.__dict__:
+                index += 1
             avp_key = f"{avp_key}__{index}"
 
         #: Updates DiameterMessage attributes.
